@@ -66,8 +66,8 @@ def ideal_gauss(A3, fwhm, d):
     """the Gaussian of the requested FWHM in world units, cut at normsq/2 <= 15, at voxel
     offsets d (..., 3); written independently of the implementation"""
     X = np.asarray(d, float) @ np.asarray(A3, float).T
-    sig = fwhm / SQRT8LN2
-    u = (X ** 2).sum(-1) / (2.0 * sig * sig)
+    sig = np.asarray(fwhm, float) / SQRT8LN2          # scalar or one value per world coordinate
+    u = ((X / sig) ** 2).sum(-1) / 2.0
     return np.where(u <= 15, np.exp(-np.minimum(u, 15)), 0.0), u
 
 
@@ -286,8 +286,10 @@ def geometry_and_values(ck):
                 # kernel values are the world-unit Gaussian at offsets from the kernel's own centre
                 j = np.stack(np.meshgrid(*[np.arange(k) for k in c.k], indexing="ij"), -1) - np.array(c.ck)
                 G, _u = ideal_gauss(A3, fwhm, j)
+                # structural feature of the fwhm == 1.0 defect: the kernel is the UNSCALED Gaussian (sigma 1)
+                unscaled = fwhm == 1.0 and np.allclose(c.K, ideal_gauss(A3, SQRT8LN2, j)[0], rtol=0, atol=1e-12)
                 if not np.allclose(c.K, G, rtol=0, atol=1e-12):
-                    sig = SIG_ONE if fwhm == 1.0 else "kernel/not-world-gaussian"
+                    sig = SIG_ONE if unscaled else "kernel/not-world-gaussian"
                     ck.fail(sig, "kernel is not exp(-|A d|^2/(2 sigma^2)), sigma = fwhm/sqrt(8 ln 2): shape %s fwhm %s max|diff| %.3g"
                             % (shape, fwhm, float(np.abs(c.K - G).max())), replay_of(c))
                 # --- values: random integer image, vs direct convolution (model index formula)
@@ -303,7 +305,7 @@ def geometry_and_values(ck):
                         fi = conv_full(x, Gfull) / Gfull.sum()
                         exp_i = window(fi, [R, R, R], shape)
                         if not np.allclose(out, exp_i, rtol=0, atol=TOL * max(1.0, float(np.abs(exp_i).max()))):
-                            sig = SIG_ONE if fwhm == 1.0 else "impulse/not-ideal-gaussian-uncropped"
+                            sig = SIG_ONE if unscaled else "impulse/not-ideal-gaussian-uncropped"
                             ck.fail(sig, "smooth != convolution with the centred world-unit Gaussian of the requested fwhm although its support fits the grid: shape %s fwhm %s max|diff| %.3g"
                                     % (shape, fwhm, float(np.abs(out - exp_i).max())), replay_of(c, x=x.tolist()))
                 # --- model terms
@@ -387,6 +389,133 @@ def impulses(ck):
                             ck.fail("mass/interior-impulse", "interior impulse at %s: total intensity %r != 1" % (p0, float(out.sum())),
                                     replay_of(c, impulse=list(p0)))
     ck.section("impulses", impulse_smooths=nimp, shapes=len(shapes), affines=len(affs), fwhm=fw)
+
+
+def conversion_purity(ck):
+    """(a) fwhm2sigma / sigma2fwhm on every kind of argument: value against an independent copy taken
+    BEFORE the call, argument unchanged, result does not alias the argument, round trip against the copy"""
+    import copy
+    from nipy.algorithms.kernel_smooth import fwhm2sigma, sigma2fwhm
+    base = np.array([2.0, 4.0, 8.0, 1.0, 6.0, 3.5])
+    big = np.arange(1.0, 13.0).reshape(3, 4)
+    makers = [
+        ("python-float", lambda: 6.0), ("python-int", lambda: 6), ("list", lambda: [5.0, 7.0, 9.0]), ("tuple", lambda: (5.0, 7.0, 9.0)),
+        ("int-list", lambda: [5, 7, 9]),
+        ("float64-vector", lambda: np.array([5.0, 7.0, 9.0])), ("float64-0d", lambda: np.array(6.0)),
+        ("float64-2d", lambda: big.copy()), ("float32-vector", lambda: np.array([5.0, 7.0, 9.0], dtype=np.float32)),
+        ("int64-vector", lambda: np.array([5, 7, 9])), ("int32-vector", lambda: np.array([5, 7, 9], dtype=np.int32)),
+        ("strided-view", lambda: base.copy()[::2]), ("column-view", lambda: big.copy()[:, 1]),
+        ("fortran-2d", lambda: np.asfortranarray(big.copy())), ("float64-scalar", lambda: np.float64(6.0)),
+    ]
+    for fname, fn, inv, op in (("fwhm2sigma", fwhm2sigma, sigma2fwhm, lambda v: v / SQRT8LN2),
+                               ("sigma2fwhm", sigma2fwhm, fwhm2sigma, lambda v: v * SQRT8LN2)):
+        for kind, mk_arg in makers:
+            ck.count(("conv-arg", fname, kind), bucket="oracle/conversion-arguments")
+            arg = mk_arg()
+            owner = arg.base if isinstance(arg, np.ndarray) and arg.base is not None else None
+            owner_saved = None if owner is None else owner.copy()
+            saved = copy.deepcopy(arg)
+            want = op(np.array(saved, dtype=np.float64))
+            rep = {"function": fname, "argument_kind": kind, "argument": np.asarray(saved).tolist()}
+            try:
+                res = fn(arg)
+            except Exception as e:  # noqa
+                ck.fail("conversion/raises", "%s(%s argument) raised %s: %s" % (fname, kind, type(e).__name__, e), rep)
+                continue
+            res_copy = np.array(res, dtype=np.float64, copy=True)
+            if res_copy.shape != want.shape or not np.allclose(res_copy, want, rtol=1e-6 if "float32" in kind else 1e-14, atol=0):
+                ck.fail("conversion/wrong-value", "%s(%s %s) = %s, expected %s" % (fname, kind, np.asarray(saved).tolist(), res_copy.tolist(), want.tolist()), rep)
+            same = (np.array_equal(np.asarray(arg), np.asarray(saved)) and (not isinstance(arg, np.ndarray) or arg.dtype == saved.dtype)
+                    and (owner is None or np.array_equal(owner, owner_saved)))
+            if not same:
+                ck.fail("conversion/mutates-argument", "%s overwrote its %s argument: %s -> %s" % (fname, kind, np.asarray(saved).tolist(), np.asarray(arg).tolist()),
+                        dict(rep, argument_after=np.asarray(arg).tolist()))
+            if isinstance(arg, np.ndarray) and isinstance(res, np.ndarray) and res.ndim and np.shares_memory(res, arg):
+                ck.fail("conversion/result-aliases-argument", "%s(%s) returns memory shared with its argument" % (fname, kind), rep)
+            # round trip, judged against the copy taken before the first call
+            back = np.array(inv(res), dtype=np.float64)
+            if not np.allclose(back, np.array(saved, dtype=np.float64), rtol=1e-6 if "float32" in kind else 1e-14, atol=0):
+                ck.fail("conversion/sigma-fwhm-not-inverse", "%s then its inverse on a %s argument %s gives %s"
+                        % (fname, kind, np.asarray(saved).tolist(), back.tolist()), rep)
+            # a second call on the same object gives the same value (purity)
+            res2 = np.array(fn(arg), dtype=np.float64)
+            if res2.shape != want.shape or not np.allclose(res2, want, rtol=1e-6 if "float32" in kind else 1e-14, atol=0):
+                ck.fail("conversion/not-pure-second-call", "second %s call on the same %s object gives %s, expected %s"
+                        % (fname, kind, res2.tolist(), want.tolist()), rep)
+
+
+def per_axis_width(ck):
+    """(b) per-axis fwhm given as list / tuple / ndarray and USED AGAIN: two filters from the same object, the kernel
+    function evaluated twice, smooth twice - all equal to a fresh filter from a fresh copy and to the requested widths"""
+    import copy
+    cfgs = [((5, 4, 3), (1.0, 1.0, 1.0), (2.0, 3.0, 1.5)),
+            ((9, 11, 7), (2.0, 3.0, 2.5), (5.0, 7.0, 9.0)),
+            ((12, 8, 10), (1.0, -0.5, 2.0), (3.0, 1.5, 4.0))]
+    kinds = [("list", lambda v: list(v)), ("tuple", lambda v: tuple(v)), ("float64-array", lambda v: np.array(v, dtype=np.float64)),
+             ("int-array", lambda v: np.array([int(round(x)) for x in v])), ("float32-array", lambda v: np.array(v, dtype=np.float32)),
+             ("array-view", lambda v: np.array([v, v], dtype=np.float64)[1])]
+    for shape, steps, widths in cfgs:
+        A3 = np.diag(steps)
+        A4 = aff4(A3, (-3, 4, 9))
+        p0 = tuple(n // 2 for n in shape)
+        x = np.zeros(shape)
+        x[p0] = 1
+        pts = np.zeros((4, 3))
+        for kind, mkw in kinds:
+            ck.count(("per-axis", shape, kind), bucket="oracle/per-axis-fwhm")
+            obj = mkw(widths)
+            saved = copy.deepcopy(obj)
+            req = np.array(saved, dtype=np.float64)          # the widths actually requested (int kind rounds)
+            for i in range(3):
+                pts[i + 1] = 0
+                pts[i + 1, i] = req[i] / 2                    # world distance fwhm_i / 2 along coordinate i
+            rep = {"affine": A4.tolist(), "shape": list(shape), "fwhm_kind": kind, "fwhm": req.tolist(),
+                   "call": "f1 = LinearFilter(cm, shape, fwhm=w); f2 = LinearFilter(cm, shape, fwhm=w) with the SAME object w; f1(points) twice; smooth twice"}
+            # independent expectation: the centred world Gaussian with per-axis widths, same crop/normalisation rules
+            ext, Gfull, R = ideal_support_extent(A3, req, max(shape))
+            fits = all(ext[i] <= (shape[i] - 1) // 2 for i in range(3))
+            want = window(conv_full(x, Gfull) / Gfull.sum(), [R, R, R], shape) if fits else None
+            try:
+                fresh, cm = mk(A4, shape, list(req))
+                Kfresh = np.array(fresh._kernel)
+                sfresh = smooth(fresh, cm, x).get_fdata()
+                f1, _ = mk(A4, shape, obj)
+                s1 = smooth(f1, cm, x).get_fdata()
+                v1 = np.array(f1(pts.copy()))
+                v2 = np.array(f1(pts.copy()))
+                s1b = smooth(f1, cm, x).get_fdata()
+                f2, _ = mk(A4, shape, obj)
+                s2 = smooth(f2, cm, x).get_fdata()
+                v3 = np.array(f2(pts.copy()))
+            except Exception as e:  # noqa
+                ck.fail("width/per-axis-fwhm-raises", "per-axis fwhm given as %s: %s: %s" % (kind, type(e).__name__, e), rep)
+                continue
+            tol32 = 1e-6 if kind == "float32-array" else 1e-9
+            uses = [("first filter, smooth", s1, sfresh, False), ("first filter, smooth again", s1b, sfresh, True),
+                    ("second filter from the same fwhm object, smooth", s2, sfresh, True)]
+            for what, got, ref, reuse in uses:
+                bad = got.shape != ref.shape or not np.allclose(got, ref, rtol=0, atol=tol32)
+                if not bad and want is not None:
+                    bad = not np.allclose(got, want, rtol=0, atol=tol32)
+                if bad:
+                    ck.fail("width/per-axis-fwhm-not-honoured-on-reuse" if reuse else "width/per-axis-fwhm-not-honoured",
+                            "%s (fwhm %s as %s): peak %.4g, a fresh filter from a fresh copy gives %.4g; the fwhm object now reads %s"
+                            % (what, req.tolist(), kind, float(got.max()), float(ref.max()), np.asarray(obj).tolist()),
+                            dict(rep, step=what, fwhm_object_after=np.asarray(obj).tolist()))
+            if f2._kernel.shape != Kfresh.shape or not np.allclose(f2._kernel, Kfresh, rtol=0, atol=tol32):
+                ck.fail("width/per-axis-fwhm-not-honoured-on-reuse", "second filter built from the same fwhm object (%s, %s) has kernel shape %s, fresh filter %s"
+                        % (kind, req.tolist(), f2._kernel.shape, Kfresh.shape), dict(rep, step="second filter kernel", fwhm_object_after=np.asarray(obj).tolist()))
+            for what, vals, reuse in (("filter(points) after construction (the kernel's second evaluation)", v1, True), ("filter(points) evaluated again", v2, True),
+                                      ("second filter(points)", v3, True)):
+                if vals.shape != (4,) or not np.allclose(vals, [1.0, 0.5, 0.5, 0.5], rtol=0, atol=1e-6 if kind == "float32-array" else 1e-12):
+                    ck.fail("width/per-axis-fwhm-not-honoured-on-reuse" if reuse else "width/per-axis-fwhm-not-honoured",
+                            "%s at the centre and the three half-width points (fwhm %s as %s) gives %s, expected [1, .5, .5, .5]; the fwhm object now reads %s"
+                            % (what, req.tolist(), kind, vals.tolist(), np.asarray(obj).tolist()),
+                            dict(rep, step=what, points=pts.tolist(), fwhm_object_after=np.asarray(obj).tolist()))
+            unchanged = np.array_equal(np.asarray(obj), np.asarray(saved)) and (not isinstance(obj, np.ndarray) or obj.dtype == saved.dtype)
+            if not unchanged:
+                ck.fail("mutates-input/fwhm-argument", "the caller's fwhm %s %s reads %s after building and using the filters"
+                        % (kind, np.asarray(saved).tolist(), np.asarray(obj).tolist()), dict(rep, fwhm_object_after=np.asarray(obj).tolist()))
 
 
 def oracles(ck):
@@ -501,7 +630,7 @@ def oracles(ck):
     ck.count(("fwhm1",), bucket="oracle/fwhm-exactly-1")
     v = K[cc[0] + 2, cc[1], cc[2]] if K.shape[0] > cc[0] + 2 else 0.0
     if abs(v - 0.5) > 1e-9:
-        ck.fail(SIG_ONE, "fwhm=1.0: kernel value at world distance 0.5 is %.6f, not 0.5 (kernel has sigma 1)" % v,
+        ck.fail(SIG_ONE if abs(v - math.exp(-0.125)) < 1e-9 else "kernel/fwhm-not-in-world-units", "fwhm=1.0: kernel value at world distance 0.5 is %.6f, not 0.5 (kernel has sigma 1)" % v,
                 {"affine": aff4(np.diag([0.25] * 3)).tolist(), "shape": [21, 21, 21], "fwhm": 1.0})
     # conversions
     for v in [0.1, 1.0, 2.0, 6.0, 123.456]:
@@ -550,7 +679,7 @@ def run(ck):
     import time
     tm = {"coq_build+overlay": round(time.time() - ck.t0, 1)}
     try:
-        for fn in (impulses, oracles, geometry_and_values):      # smallest inputs first
+        for fn in (conversion_purity, per_axis_width, impulses, oracles, geometry_and_values):      # smallest inputs first
             t0 = time.time()
             fn(ck)
             tm[fn.__name__] = round(time.time() - t0, 1)
